@@ -201,29 +201,29 @@ def c10_unbounded_packet_length(rp):        # known: no cap on the packet_length
     return rp.get('kind') == 'unbounded_packet_length'
 
 
-def c10_copy_same_file(rp):                 # fixed COMMIT_C10_1
+def c10_copy_same_file(rp):                 # fixed 79ceadf
     return rp.get('kind') == 'copy_spin' and rp.get('same_file') is True
 
 
-def c10_der_exceptions(rp):                 # fixed COMMIT_C10_3a
+def c10_der_exceptions(rp):                 # fixed 5ce3b74
     return rp.get('kind') == 'parser' and rp.get('stage') == 'fuzz_imports' and \
         rp.get('exc') in ('asn1.ASN1EncodeError', 'builtins.UnicodeDecodeError')
 
 
-def c10_pem_header_regex(rp):               # fixed COMMIT_C10_3b
+def c10_pem_header_regex(rp):               # fixed 25a6765
     return rp.get('kind') == 'parser' and rp.get('stage') == 'fuzz_imports' and rp.get('exc') == 're.error'
 
 
-def c10_x509_nameerror(rp):                 # fixed COMMIT_C10_3c
+def c10_x509_nameerror(rp):                 # fixed d33492f
     return rp.get('kind') == 'parser' and rp.get('stage') == 'fuzz_imports' and rp.get('exc') == 'builtins.NameError'
 
 
-def c10_private_import_valueerror(rp):      # fixed COMMIT_C10_3d
+def c10_private_import_valueerror(rp):      # fixed a6805e4
     return rp.get('kind') == 'parser' and rp.get('stage') == 'fuzz_imports' and \
         rp.get('exc') in ('builtins.ValueError', 'builtins.OverflowError')
 
 
-def c10_sftp_decode_errors(rp):             # fixed COMMIT_C10_4
+def c10_sftp_decode_errors(rp):             # fixed 0201f6b
     return rp.get('kind') == 'parser' and rp.get('stage') in ('fuzz_sftp_client', 'fuzz_sftp_server') and \
         rp.get('exc') in ('packet.PacketDecodeError', 'PacketDecodeError', 'builtins.IndexError')
 
@@ -234,3 +234,57 @@ def c06_success_without_request(rp):        # fixed 5ecc05e
 
 def c06_kexinit_before_peer_newkeys(rp):    # fixed 9276b6d
     return rp.get('kind') == 'table' and rp.get('phase') == 'K2' and rp.get('type') == 20 and not rp.get('strict')
+
+
+# ---- C20 (all repaired in /repo; the predicates identify the replay class the check writes)
+
+def c20_crossed_eof(rp):                    # fixed 19cc224
+    return rp.get('kind') == 'crossed_eof_leak'
+
+
+def c20_lost_before_confirm(rp):            # fixed a38f966
+    return rp.get('kind') == 'lost_before_confirm'
+
+
+def c20_listener_after_loss(rp):            # fixed d2c8d1f
+    return rp.get('kind') == 'listener_after_loss'
+
+
+def c20_dest_socket_after_loss(rp):         # fixed 5e4160a
+    return rp.get('kind') == 'dest_socket_after_loss'
+
+
+def c20_socks_assert(rp):                   # fixed 7ae04cf
+    return rp.get('kind') == 'socks_assert' and not rp.get('wellformed')
+
+
+# ---- C05 (replay objects written by harness/props/c05.py: kind 'server_history', 'class' = which oracle failed,
+# 'scenario' = name of the fixed scenario or genN, 'world' = the application table incl. which callbacks are async) ----
+
+def _c05(rp, cls):
+    return rp.get('kind') == 'server_history' and rp.get('class') == cls
+
+
+def _c05_async(rp):
+    return rp.get('world', {}).get('async', {})
+
+
+def c05_stale_begin_auth(rp):               # fixed 208592d
+    return _c05(rp, 'auth_without_check') and bool(_c05_async(rp).get('begin'))
+
+
+def c05_request_overtakes_begin_auth(rp):   # fixed 208592d: no asynchronous callback at all is needed
+    return _c05(rp, 'auth_without_check') and not any(_c05_async(rp).values())
+
+
+def c05_stale_validator(rp):                # fixed 208592d
+    a = _c05_async(rp)
+    return _c05(rp, 'auth_without_check') and not a.get('begin') and any(a.get(k) for k in ('pw', 'key', 'ca', 'kbd'))
+
+
+def c05_double_success(rp):                 # fixed 208592d
+    return _c05(rp, 'double_success')
+
+
+def c05_stale_cert_options(rp):             # fixed 208592d
+    return _c05(rp, 'restrictions_mismatch')
